@@ -55,3 +55,7 @@
 ; AX byteSub: cutting inside an ASCII prefix is cutting code points
 (assert (forall ((s String) (a Int) (b Int)) (! (=> (and (<= 0 a) (<= a b) (<= b (str.len s)) (isAscii (str.substr s 0 b))) (= (byteSub s a b) (str.substr s a (- b a))))
                               :pattern ((byteSub s a b)))))
+; AX decCount: Decode succeeds exactly below decCount and fails at it; io.EOF is an error value
+(assert (forall ((c Int) (s String)) (! (and (>= (decCount c s) 0) ((_ is E) (decE c s (decCount c s)))) :pattern ((decCount c s)))))
+(assert (forall ((c Int) (s String) (k Int)) (! (=> (and (<= 0 k) (< k (decCount c s))) (= (decE c s k) NoErr)) :pattern ((decE c s k)))))
+(assert ((_ is E) ioEOF))
